@@ -7,6 +7,7 @@ import (
 	"fmt"
 	"net"
 	"os"
+	"strings"
 	"sync"
 	"sync/atomic"
 	"syscall"
@@ -54,6 +55,7 @@ func runC15Case(c cfg, seed uint64, keys map[string]struct{}) (evals int64) {
 		return 0
 	}
 	// connect one at a time, waiting for each OnOpen: the i-th accept is the i-th call of next()
+	var lastDialErr error
 	openOne := func(laddr net.Addr) (net.Conn, *connState) {
 		before := mon.opened.Load()
 		d := net.Dialer{Timeout: 5 * time.Second, LocalAddr: laddr, Control: func(_, _ string, rc syscall.RawConn) error {
@@ -64,6 +66,7 @@ func runC15Case(c cfg, seed uint64, keys map[string]struct{}) (evals int64) {
 		}
 		conn, err := d.Dial(life.dialNet, life.dialAddr)
 		if err != nil {
+			lastDialErr = err
 			return nil, nil
 		}
 		if ok, _ := waitCond(5*time.Second, func() bool { return mon.opened.Load() > before }); !ok {
@@ -205,7 +208,13 @@ func runC15Case(c cfg, seed uint64, keys map[string]struct{}) (evals int64) {
 			for rep := 0; rep < 2; rep++ {
 				conn2, cs2 := openOne(la)
 				if cs2 == nil {
-					res.Inconc("c15 hash: could not reconnect from %s", la)
+					if lastDialErr != nil && strings.Contains(lastDialErr.Error(), "address already in use") {
+						// the port number is also the source port of another live socket of this process (to another
+						// destination): it cannot be bound explicitly; this address is simply not re-used
+						res.Obs("c15_hash_reconnect_port_busy", 1)
+					} else {
+						res.Inconc("c15 hash: could not reconnect from %s: %v", la, lastDialErr)
+					}
 					break
 				}
 				evals++
